@@ -9,6 +9,8 @@ Decided:
   C19.const  the all-zero and all-wasted early exits return the constant recorder (one sample regardless of length)
   C19.orders encode_fixed_subframe tries every FIXED order its four difference buffers allow (no limiting adaptor on the
              order loop) and selects among all computed orders: what makes a constant non-zero block cost a few bytes
+  C19.kind   narrowing 5-bit Rice parameters to 4 bits keeps each partition's kind (Constant stays Constant)
+  C19.cache  scratch buffers and recorders are reset before each block (cachelib, shared with C01/C02/C16)
 Not decided: the numeric bound itself (header sizes, Rice estimate accuracy).
 """
 from rules.common import *
@@ -118,6 +120,26 @@ def run(ctx, rep):
                 if cb is None:
                     continue
     rep.floor("C19.min", "minimum selections", total, 4)
+    # stale scratch data (a buffer or recorder not reset between blocks) inflates a frame beyond its declared samples
+    from rules import cachelib
+    cachelib.cache_rules(ctx, rep, "C19")
+    # ---- C19.kind: narrowing the Rice parameter field (method 1 -> method 0) keeps each partition's kind: an all-zero
+    # (Constant) partition stays a zero-width escape, it is not turned into one bit per residual
+    hb = [x for x in F.bodies if x.promoted is None and x.kind != "Closure" and strip_generics(x.path) == "encode::write_residuals::try_shrink_header"]
+    if not hb:
+        rep.bad("C19.kind", "anchor:write_residuals::try_shrink_header", "", "not found")
+    for x in hb[:1]:
+        pfh = ok.path_facts(x)
+        rows = 0
+        for bi, bl in enumerate(x.blocks):
+            for s_ in bl["s"]:
+                if s_["rv"]["r"] == "agg" and "ResidualPartitionHeader" in str(s_["rv"].get("adt")):
+                    f = pfh.get(bi, TOP)
+                    src = [y[1] for y in (f or ()) if f is not TOP and y[0] == "is" and y[1] in ("Standard", "Escaped", "Constant") and "header" in str(y[2])]
+                    rows += 1
+                    rep.check("C19.kind", "try_shrink_header maps a %s partition to a %s partition" % (s_["rv"]["var"], s_["rv"]["var"]), src == [s_["rv"]["var"]], x.loc(s_["sp"]), str(src),
+                              "the header narrowing turns a %s partition into a %s one: e.g. an all-zero partition would cost one bit per residual instead of nothing" % (src, s_["rv"]["var"]))
+        rep.floor("C19.kind", "partition kinds handled by try_shrink_header", rows, 3)
     # ---- C19.orders: a constant (non-zero) block is cheap only because FIXED order 1 is tried: all four difference
     # orders are attempted, the only early exits being an overflowing difference or a block shorter than the order
     fb = anchor(F, rep, "C19.orders", "encode::encode_fixed_subframe")
